@@ -24,7 +24,7 @@ RULE = ("run = 1-4 descriptions (paper/example files, generator boards, random w
 
 
 def n_fixed(tier):
-    return 3
+    return 4
 
 
 def fixed_specs(tier, ctx):
@@ -36,7 +36,26 @@ def fixed_specs(tier, ctx):
         opl.append({"op": "solve_fresh", "d": i, "prune": True})
         opl.append({"op": "solve_fresh", "d": i, "prune": True})
         opl.append({"op": "solve_fresh", "d": i, "prune": False})
-    return [{"cfg": {"klass": "plain"}, "descs": descs, "ops": opl}, _quiet_spec(tier), _concurrent_spec(tier)]
+    return [{"cfg": {"klass": "plain"}, "descs": descs, "ops": opl}, _quiet_spec(tier), _concurrent_spec(tier), _twins_spec(tier)]
+
+
+def _twins_spec(tier):
+    """Games of equal size and shape but different wiring (one transition rewired, rows permuted, one player
+    handed over), solved back to back through short-lived copies: whatever is remembered by size, shape, address
+    or a rounded key is consulted by the other twin."""
+    import random as _r
+    from .. import pools
+    rng = _r.Random(11)
+    descs, opl = [], []
+    for i in range(10 if tier == "quick" else 60):
+        base = pools.stopping_game(rng, 6, 11)
+        twin, kind_ = pools.variant_game(rng, base, ("rewire", "permute", "players", "nudge", "rewire")[i % 5])
+        descs += [{"desc": enc(base), "tag": "twin-base%d" % i}, {"desc": enc(twin), "tag": "twin-%s%d" % (kind_, i)}]
+        a, b = 2 * i, 2 * i + 1
+        opl += [{"op": "batch", "ds": [a, b]}, {"op": "batch", "ds": [b, a]}, {"op": "batch", "ds": [a]}, {"op": "batch", "ds": [b]},
+                {"op": "solve_fresh", "d": a, "prune": True}, {"op": "solve_fresh", "d": b, "prune": True},
+                {"op": "solve_fresh", "d": b, "prune": False}, {"op": "solve_fresh", "d": a, "prune": False}]
+    return {"cfg": {"klass": "twins-back-to-back"}, "descs": descs, "ops": opl}
 
 
 def _concurrent_spec(tier):
